@@ -799,7 +799,7 @@ pub fn pool(f: &FieldRow) -> (Vec<&'static str>, Vec<&'static str>) {
                 (vec!["a", "a b c", "", " a  b ", "a\nb", "main contrib", "x #y z"], vec![])
             }
         }
-        _ => (vec!["value", "two words", "", "multi\nline", " lead", "é", "a: b", "#hash"], vec![]),
+        _ => (vec!["value", "two words", "", "multi\nline", " lead", "é", "a: b", "#hash", "first\n\nthird", "a\nb\n\nc"], vec![]),
     }
 }
 
